@@ -37,6 +37,34 @@ def setup():
     return 0
 
 
+def generic_replay(mod, prop, path):
+    """replay for the property modules without a dedicated one: the check is re-run with the seed and tier recorded in the replay
+    file (every random choice derives from them, so the same inputs are generated), nothing is written, and the run is searched
+    for the recorded violation (same key; for a no-failing-input-found replay: the same broken obligation or correspondence).
+    Exit 1 = reproduced, 0 = the property holds on that input now."""
+    import json
+    rep = json.load(open(path))
+    ctx = core.Ctx(prop, rep.get("tier", "quick"), int(rep.get("seed", 0)))
+    ctx.dry = True
+    if rep.get("tier") == "quick" and not ctx.escalated:
+        pass
+    mod.run(ctx)
+    if rep.get("kind") == "no-failing-input-found":
+        if ctx.broken:
+            what = (ctx.proof or {}).get("broken", [])[:3] or ctx.corr_breaks[:1] or ctx.extra.get("translation_failure")
+            print(f"REPRODUCED (still no failing input): {json.dumps(what, default=str)[:600]}")
+            return 1
+        print("replay: every obligation and correspondence checks now")
+        return 0
+    hits = [v for v in ctx.violations if v.get("key") == rep.get("key")]
+    same = [v for v in hits if json.dumps(v.get("input"), sort_keys=True, default=str) == json.dumps(rep.get("input"), sort_keys=True, default=str)]
+    for v in (same or hits)[:3]:
+        print(f"REPRODUCED {v['key']}: {v['what'][:300]}" + ("" if v in same else "  (same violation key, another input)"))
+    if not hits:
+        print("replay: the recorded violation does not occur now (same seed and tier re-run)")
+    return 1 if hits else 0
+
+
 def main():
     ap = argparse.ArgumentParser()
     ap.add_argument("prop", nargs="?")
@@ -52,7 +80,16 @@ def main():
     ctx = core.Ctx(a.prop, a.tier, seed)
     try:
         if a.replay:
-            sys.exit(mod.replay(ctx, a.replay))
+            rc = 2
+            if hasattr(mod, "replay"):
+                try:
+                    rc = mod.replay(ctx, a.replay)
+                except Exception:
+                    traceback.print_exc()
+                    rc = 2
+            if rc == 2:     # no dedicated replay for this kind of record: re-run the check with the recorded seed and tier
+                rc = generic_replay(mod, a.prop, a.replay)
+            sys.exit(rc)
         rc = mod.run(ctx)
     except core.MachineryError as e:
         print(f"MACHINERY-ERROR {a.prop}: {e}", file=sys.stderr)
